@@ -120,8 +120,19 @@ CONV = 'pavex::blueprint::conversions::'
 def r2_conversions(ctx):
     ctx.rule('C19.R2', 'P5: the runtime->schema conversion functions map every variant to the like-named schema variant and every field to the '
              'like-named field; AnnotationKind::parse and Display are inverse of each other.')
-    for fn in ('lifecycle2lifecycle', 'cloning2cloning', 'lint2lint', 'sources2sources'):
-        b = ctx.need('C19.R2', CONV + fn, ctx.fb.body('pavex', CONV + fn))
+    def conversion(fn, schema_ty):
+        """the runtime -> schema conversion: the function of that name, or (if the conversions were reorganised, e.g. into a trait) the one
+        function of pavex::blueprint that returns the schema type `schema_ty` from one argument of the like-named runtime type"""
+        b_ = ctx.fb.body('pavex', CONV + fn)
+        if b_ is not None:
+            return b_
+        want = 'pavex_bp_schema::' + schema_ty
+        cands = [x for x in ctx.fb.bodies('pavex') if not x.is_promoted and x.nid == x.nroot and x.nid.replace('<', '').startswith('pavex::blueprint::')
+                 and x.raw['argc'] == 1 and strip_generics(x.locals[0]) == want and x.locals[1].split('::')[-1].split('<')[0] == schema_ty]
+        return cands[0] if len(cands) == 1 else None
+
+    for fn, sty in (('lifecycle2lifecycle', 'Lifecycle'), ('cloning2cloning', 'CloningPolicy'), ('lint2lint', 'Lint'), ('sources2sources', 'Sources')):
+        b = ctx.need('C19.R2', CONV + fn, conversion(fn, sty))
         if b is None:
             continue
         sws = list(enum_switches(b))
@@ -133,8 +144,8 @@ def r2_conversions(ctx):
             if f['unreachable'] and not outs:
                 continue
             ctx.ob('C19.R2', 'table|%s|%s' % (fn, var), outs == {var}, b.loc(sws[0][0]), '%s(%s) builds schema variant(s) %s' % (fn, var, sorted(outs)))
-    for fn in ('coordinates2coordinates', 'created_at2created_at'):
-        b = ctx.need('C19.R2', CONV + fn, ctx.fb.body('pavex', CONV + fn))
+    for fn, sty in (('coordinates2coordinates', 'AnnotationCoordinates'), ('created_at2created_at', 'CreatedAt')):
+        b = ctx.need('C19.R2', CONV + fn, conversion(fn, sty))
         if b is None:
             continue
         defs = Defs(b)
